@@ -190,6 +190,127 @@ theorem columns_refine (z : α) (dim w Ns i : Nat) (A : List (List α)) (v : Lis
       · have : j ≠ i := fun e => hji e.symm
         simp [hji, hother j this]
 
+lemma widthA_of_rect (dim u : Nat) (B : List (List α)) (hd : 1 ≤ dim) (hB : Rect dim u B) : widthA B = u := by
+  cases B with
+  | nil => have := hB.1; simp at this; omega
+  | cons a r => simp [widthA, hB.2 a (by simp)]
+
+lemma storeLoopA_spec (z : α) (dim w : Nat) (vals : Nat → List α) (hv : ∀ t, (vals t).length = dim) :
+    ∀ (k i t : Nat) (A : List (List α)), Rect dim w A → i + k ≤ w →
+      Rect dim w (storeLoopA vals i t k A) ∧
+      (∀ j, j < i → colA z (storeLoopA vals i t k A) j = colA z A j) ∧
+      (∀ m, m < k → colA z (storeLoopA vals i t k A) (i + m) = vals (t + m)) := by
+  intro k
+  induction k with
+  | zero => intro i t A hA _; exact ⟨hA, fun _ _ => rfl, fun m hm => absurd hm (by omega)⟩
+  | succ k ih =>
+    intro i t A hA hik
+    obtain ⟨hsame, hother, hrect⟩ := store_column z dim w i A (vals t) hA (by omega) (hv t)
+    obtain ⟨h1, h2, h3⟩ := ih (i + 1) (t + 1) (setColA A i (vals t)) hrect (by omega)
+    refine ⟨h1, ?_, ?_⟩
+    · intro j hj
+      show colA z (storeLoopA vals (i + 1) (t + 1) k (setColA A i (vals t))) j = _
+      rw [h2 j (by omega), hother j (by omega)]
+    · intro m hm
+      show colA z (storeLoopA vals (i + 1) (t + 1) k (setColA A i (vals t))) (i + m) = _
+      cases m with
+      | zero =>
+        have := h2 i (by omega)
+        simp only [Nat.add_zero]
+        rw [this, hsame]
+      | succ m =>
+        have := h3 m (by omega)
+        have e1 : i + 1 + m = i + (m + 1) := by omega
+        have e2 : t + 1 + m = t + (m + 1) := by omega
+        rw [e1, e2] at this
+        exact this
+
+/-- what `runCallsA` maintains: no array before the first call; afterwards a `(dim, t)` array whose column
+    `j` is the block's value after sweep `j` -/
+def ArrInv (z : α) (dim : Nat) (vals : Nat → List α) (st : Option (List (List α)) × Nat) : Prop :=
+  match st.1 with
+  | none => st.2 = 0
+  | some A => Rect dim st.2 A ∧ ∀ j, j < st.2 → colA z A j = vals j
+
+lemma runCallsA_inv (z : α) (dim : Nat) (vals : Nat → List α) (hd : 1 ≤ dim) (hv : ∀ t, (vals t).length = dim) :
+    ∀ (calls : List Nat) (st : Option (List (List α)) × Nat), ArrInv z dim vals st →
+      ArrInv z dim vals (runCallsA z dim vals calls st) ∧ (runCallsA z dim vals calls st).2 = st.2 + calls.sum := by
+  intro calls
+  induction calls with
+  | nil => intro st h; exact ⟨h, by simp [runCallsA]⟩
+  | cons Ns r ih =>
+    intro st h
+    obtain ⟨old, t⟩ := st
+    have key : ArrInv z dim vals
+        (some (storeLoopA vals (atNsA old) t Ns (allocA z dim Ns old)), t + Ns) := by
+      cases old with
+      | none =>
+        have ht : t = 0 := h
+        subst ht
+        obtain ⟨h1, _, h3⟩ := storeLoopA_spec z dim Ns vals hv Ns 0 0 (allocA z dim Ns none)
+          (rect_zeros2 z dim Ns) (by omega)
+        refine ⟨by simpa [atNsA] using h1, ?_⟩
+        intro j hj
+        have := h3 j (by omega)
+        simpa [atNsA] using this
+      | some A =>
+        obtain ⟨hA, hcols⟩ := h
+        have hw : widthA A = t := widthA_of_rect dim t A hd hA
+        obtain ⟨hkeep, _⟩ := alloc_keeps_stored_columns z dim Ns t A hA
+        obtain ⟨h1, h2, h3⟩ := storeLoopA_spec z dim (t + Ns) vals hv Ns t t (allocA z dim Ns (some A))
+          (alloc_rect z dim Ns t A hA).2 (by omega)
+        simp only [atNsA, hw]
+        refine ⟨h1, ?_⟩
+        intro j hj
+        by_cases hjt : j < t
+        · rw [h2 j hjt, hkeep j hjt, hcols j hjt]
+        · have e : j = t + (j - t) := by omega
+          have := h3 (j - t) (by omega)
+          rw [← e] at this
+          exact this
+    obtain ⟨hi, hs⟩ := ih _ key
+    refine ⟨hi, ?_⟩
+    show (runCallsA z dim vals r _).2 = _
+    rw [hs]
+    simp [Nat.add_assoc]
+
+/-- **legacy_arrays_are_sweep_results** — `lsample` on the concrete arrays: over any sequence of calls
+    `sample(Ns₁); sample(Ns₂); …` of a fresh legacy `Gibbs` (allocation by `np.zeros`, continuation by
+    `np.hstack`, `at_Ns` read from the old array, the loop writing column `at_Ns + k`), the array of a block
+    of dimension `dim ≥ 1` is a `(dim, Ns₁ + Ns₂ + …)` array whose column `j` is the block's value after
+    sweep `j + 1` of the sampling phase (`vals j`; by `legacy_stored_is_post_sweep` the post-sweep tuple),
+    for every `j` — earlier calls' columns included: a continuation neither moves nor rewrites them, and the
+    new sweeps follow without gap. -/
+theorem legacy_arrays_are_sweep_results (z : α) (dim : Nat) (vals : Nat → List α) (hd : 1 ≤ dim)
+    (hv : ∀ t, (vals t).length = dim) (Ns : Nat) (calls : List Nat) :
+    ∃ A, runCallsA z dim vals (Ns :: calls) (none, 0) = (some A, (Ns :: calls).sum) ∧
+      Rect dim (Ns :: calls).sum A ∧ ∀ j, j < (Ns :: calls).sum → colA z A j = vals j := by
+  obtain ⟨hi, hs⟩ := runCallsA_inv z dim vals hd hv (Ns :: calls) (none, 0) rfl
+  have hsome : ∃ A, (runCallsA z dim vals (Ns :: calls) (none, 0)).1 = some A := by
+    have : ∀ (l : List Nat) (st : Option (List (List α)) × Nat), st.1.isSome →
+        (runCallsA z dim vals l st).1.isSome := by
+      intro l
+      induction l with
+      | nil => intro st h; exact h
+      | cons a r ih => intro st _; obtain ⟨o, t⟩ := st; exact ih _ rfl
+    exact Option.isSome_iff_exists.1 (this calls _ rfl)
+  obtain ⟨A, hA⟩ := hsome
+  refine ⟨A, ?_, ?_⟩
+  · apply Prod.ext hA
+    simpa using hs
+  · have := hi
+    unfold ArrInv at this
+    rw [hA] at this
+    simp only [Nat.zero_add] at hs
+    rw [hs] at this
+    exact this
+
+/-- `sample(2); sample(1)` on a block of dimension 2 whose value after sweep `t` is `[t, 10 t]` -/
+example : runCallsA (0 : Int) 2 (fun t => [(t : Int), 10 * t]) [2, 1] (none, 0)
+    = (some [[0, 1, 2], [0, 10, 20]], 3) := by decide
+
+example := legacy_arrays_are_sweep_results (0 : Int) 2 (fun t => [(t : Int), 10 * t]) (by decide) (fun _ => rfl) 2 [1, 0, 3]
+
 /-- the hypotheses of the theorems above are satisfiable: a `(2, 3)` array -/
 lemma rect_example : Rect 2 3 [[(1 : Int), 2, 3], [4, 5, 6]] := ⟨rfl, by simp⟩
 
